@@ -288,7 +288,7 @@ def check_keypath(c, ctx):
 
 
 KIND_SETS = [['empty'], ['empty', 'drop'], ['drop', 'empty', 'checksig'], ['drop'], ['same'], ['drop', 'same', 'same'], ['checksig', 'drop'], ['args', 'drop'], ['checksig'], ['big', 'drop'], ['drop', 'checksig', 'args', 'same'], ['zero00'], ['zero00'], ['zero00', 'ffff'], ['ffff', 'drop'], ['codesep'], ['codesep', 'drop']]
-PREFIXES = [None, None, 'bc', 'tb', 'bcrt', 'xyz', 'a']
+PREFIXES = [None, None, 'bc', 'tb', 'bcrt', 'xyz', 'a', 'x1', 'tb1', 'bc11', 'a1b', '1x', 'q~!1']
 
 
 def w_grid(ctx, wid, seed, pairs):
@@ -312,7 +312,7 @@ def random_cases(draw):
     if n > 100:
         kinds = [k for k in kinds if k != 'big'] or ['drop']
     # (the longest prefix that still gives an address of at most 90 characters is 30 characters long; longer ones must be refused - see check_long_prefix)
-    prefix = draw(st.one_of(st.sampled_from(PREFIXES), st.text(alphabet='abcdefghijklmnopqrstuvwxyz', min_size=1, max_size=8), st.sampled_from(['a' * 29, 'b' * 30, 'q' * 30])))
+    prefix = draw(st.one_of(st.sampled_from(PREFIXES), st.text(alphabet='abcdefghijklmnopqrstuvwxyz', min_size=1, max_size=8), st.text(alphabet='abz019!~-_', min_size=1, max_size=6), st.sampled_from(['a' * 29, 'b' * 30, 'q' * 30])))
     return build_case(n, idx, kinds, draw(st.integers(0, 200)), prefix)
 
 
